@@ -28,8 +28,17 @@ fn two(main: &str, other: (&str, &str)) -> Sources {
 
 type W = (&'static str, &'static str, fn() -> Option<String>);
 
+fn front_end_panic(text: &str) -> Option<String> {
+    let r = crate::util::guard(|| oal_wasm::compile(text));
+    crate::util::install_panic_hook();
+    match r {
+        Err(p) => Some(format!("C04 playground: panic {}", p.signature())),
+        Ok(_) => None,
+    }
+}
+
 /// (property, key, observation) — observation returns the signature if the finding still reproduces.
-pub const WITNESSES: [W; 11] = [
+pub const WITNESSES: [W; 14] = [
     ("C01", "c01-cross-module-instantiation", || {
         let src = two("use \"a.oal\";\nres / on get -> f <>;\n", ("a.oal", "let f x = { 'p x };\n"));
         match pipeline::run(&src, None) {
@@ -59,6 +68,10 @@ pub const WITNESSES: [W; 11] = [
             _ => None,
         }
     }),
+    // The same three evaluation panics as seen by the single-file front ends (C04): the playground entry point.
+    ("C04", "c01-recursion-placeholder-memoised", || front_end_panic("let node = / on get -> x;\nlet x = node;\nres node;\nres x;\n")),
+    ("C04", "c01-sum-of-uris-as-uri", || front_end_panic("res concat (/a | /b) /c;\n")),
+    ("C04", "c01-sum-of-uris-as-relation", || front_end_panic("res (/a | /b);\n")),
     ("C02", "c02-duplicate-path", || {
         let d = doc(&Sources::single("res /a on get -> {};\nres /a on put -> {};\n"))?;
         let item = d.pointer("/paths/~1a")?;
